@@ -40,6 +40,12 @@ def run(ch, fams, modes, ctimeout):
 
         def connect(af, addr):
             i = int(addr[0][4:])
+            if ("start", i) in trace:
+                # an address is attempted at most once; answering with a pending stream also ends any runaway retry
+                trace.append(("retried", i))
+                s2 = FakeStream(i, asyncio.Future())
+                streams[(i, len(trace))] = s2
+                return s2, s2.fut
             trace.append(("start", i))
             if modes[i] == "raises":
                 raise OSError(97, "Address family not supported (addr %d)" % i)
@@ -131,6 +137,9 @@ def judge(fams, modes, ctimeout, o):
                 want = ("timeout",)
         elif ev[0] == "horizon":
             bad.append(("horizon", "no quiescence"))
+        elif ev[0] == "retried":
+            bad.append(("address-attempted-twice", "address %d was attempted a second time (trace %r)" % (ev[1], o["trace"])))
+            return bad
         elif ev[0] == "timeout-not-armed":
             bad.append(("connect-timeout-not-armed", "the future is pending but no timer is scheduled for the connect "
                         "timeout (t=5.0); timers at %r" % (ev[1],)))
